@@ -95,6 +95,7 @@ let handle = function
       if List.length b > 255 then "Err TooLong" else show_res kind arg_of_text (c18_hashdisp b)
   | ["encw64"; r; a] -> encw c18_encw64 r a
   | ["encw16"; r; a] -> encw c18_encw16 r a
+  | ["encw32"; r; a] -> encw c18_encw32 r a
   | ["soct"; a] -> show_res scan2_kind hex_of_bytes (c18_soct (text_of_arg a))
   | ["scstr"; a] -> show_res scan2_kind hex_of_bytes (c18_scstr (text_of_arg a))
   | ["sstr"; a] -> show_res scan2_kind hex_of_bytes (c18_sstr (text_of_arg a))
@@ -120,6 +121,7 @@ let handle = function
   | ["hashj"; a] -> show_res nokind arg_of_text (c18_hashdisp (bytes_of_hex a))
   | ["saltjd"; a] -> show_res nokind hex_of_bytes (c18_saltstr (text_of_arg a))
   | ["hashjd"; a] -> show_res nokind hex_of_bytes (c18_hashstr (text_of_arg a))
+  | ["sname"; a] -> show_res nokind hex_of_bytes (c18_sname (text_of_arg a))
   | "conv64" :: l -> conv c18_conv64 l
   | "conv32" :: l -> conv c18_conv32 l
   | "conv16" :: l -> conv c18_conv16 l
